@@ -1,4 +1,5 @@
 import Astisub.Driver.Ops
+import Astisub.Driver.Ts
 
 open Astisub Astisub.Driver Astisub.Proto
 
@@ -9,6 +10,7 @@ def handleLine (line : String) : Verdict :=
   | [] => .bad "empty"
   | op :: args =>
     if op.startsWith "ops." then handleOps3 op args impl
+    else if op.startsWith "ts." then handleTs op args impl
     else .bad s!"unknown stream {op}"
 
 structure Stats where
